@@ -215,7 +215,7 @@ impl SzxSpec {
                     out.push((*b"SPCR", vec![Piece::Lit(b)]));
                 }
                 Ck::Ay => {
-                    let ay = s.ay.clone().unwrap_or(AyState { sel: 0, regs: [0; 16], enabled: false });
+                    let ay = s.ay.clone().unwrap_or(AyState { sel: 0, regs: [0; 16], enabled: false, played: false });
                     // chFlags: bit 1 = ZXSTAYF_128AY (AY on a 48K machine)
                     let mut b = vec![if self.mid < 2 && ay.enabled { 2 } else { 0 }, ay.sel];
                     b.extend_from_slice(&ay.regs);
@@ -533,28 +533,34 @@ fn display_matches(e: &Emu, page: &[u8]) -> bool {
     true
 }
 
-/// audible class of one frame of samples: zero crossings around the mean
-fn audio_class(samples: &[f32]) -> &'static str {
-    if samples.is_empty() {
-        return "none";
+/// Number of tone edges in a stretch of samples. The signal is differenced over four samples first
+/// (slow transients — the DC filter settling after the sound changed, an envelope ramp without tone —
+/// vanish, every edge of a square wave becomes one pulse), then sign changes are counted with a
+/// hysteresis of a quarter of the peak.
+fn tone_edges(samples: &[f32]) -> usize {
+    if samples.len() < 8 {
+        return 0;
     }
-    let mean: f32 = samples.iter().sum::<f32>() / samples.len() as f32;
-    let amp = samples.iter().map(|s| (s - mean).abs()).fold(0.0f32, f32::max);
+    let d: Vec<f32> = (4..samples.len()).map(|i| samples[i] - samples[i - 4]).collect();
+    let amp = d.iter().map(|x| x.abs()).fold(0.0f32, f32::max);
     if amp < 1e-3 {
-        return "silent";
+        return 0;
     }
     let thr = amp * 0.25;
     let mut state = 0i32;
-    let mut crossings = 0;
-    for s in samples {
-        let d = s - mean;
-        let ns = if d > thr { 1 } else if d < -thr { -1 } else { state };
+    let mut n = 0;
+    for x in &d {
+        let ns = if *x > thr { 1 } else if *x < -thr { -1 } else { state };
         if ns != state && state != 0 {
-            crossings += 1;
+            n += 1;
         }
         state = ns;
     }
-    match crossings {
+    n
+}
+
+fn pitch_of(edges_per_frame: usize) -> &'static str {
+    match edges_per_frame {
         0..=3 => "silent",
         4..=24 => "low",
         25..=90 => "mid",
@@ -562,14 +568,46 @@ fn audio_class(samples: &[f32]) -> &'static str {
     }
 }
 
-/// audible class the 14 chip registers stand for (channel A tone only; see `ay_preset`)
-fn regs_class(present: bool, chip: &[u8]) -> &'static str {
+/// Audible class of the sound from the load on. `early` = every sample generated between the load
+/// and the end of the second parked frame, `late` = the fourth parked frame (one frame long).
+/// A tone that is still there in the late frame is classed by pitch — or as "steady" when channel A
+/// is in envelope mode (`envelope_mode` comes from the register read-back); a tone that was there
+/// early and is gone late is a "burst".
+fn audio_class(early: &[f32], late: &[f32], envelope_mode: bool) -> &'static str {
+    let p = pitch_of(tone_edges(late));
+    if p == "silent" {
+        return if tone_edges(early) >= 10 { "burst" } else { "silent" };
+    }
+    if envelope_mode {
+        return "steady";
+    }
+    p
+}
+
+/// does the envelope shape end at level 0 and stay there (a one-shot that dies away)?
+fn shape_dies(shape: u8) -> bool {
+    matches!(shape & 0x0F, 0..=7 | 9 | 15)
+}
+
+/// Audible class the generator state stands for (channel A only; see `ay_preset`): the 14 chip
+/// registers and whether the envelope generator is at the start of its shape.
+fn regs_class(present: bool, chip: &[u8], env_at_start: bool) -> &'static str {
     if !present || chip.len() < 14 {
         return "silent";
     }
-    let vol = chip[8] & 0x1F;
     let tone_on = chip[7] & 1 == 0;
-    if vol == 0 || !tone_on {
+    if !tone_on {
+        return "silent";
+    }
+    if chip[8] & 0x10 != 0 {
+        // amplitude from the envelope generator
+        return if shape_dies(chip[13]) {
+            if env_at_start { "burst" } else { "silent" }
+        } else {
+            "steady"
+        };
+    }
+    if chip[8] & 0x0F == 0 {
         return "silent";
     }
     let tp = (chip[0] as u32 | ((chip[1] as u32 & 0x0F) << 8)).max(1);
@@ -584,7 +622,8 @@ fn regs_class(present: bool, chip: &[u8]) -> &'static str {
 }
 
 /// AY register sets with a known audible class: channel A tone at one of three well separated
-/// pitches or silence; everything that is not audible is random.
+/// pitches or silence, or channel A through the envelope generator (one-shot shapes that die away
+/// within a frame, and repeating / holding shapes); everything that is not audible is random.
 fn ay_preset(r: &mut Rng) -> [u8; 16] {
     let mut g = [0u8; 16];
     for x in g.iter_mut() {
@@ -598,6 +637,19 @@ fn ay_preset(r: &mut Rng) -> [u8; 16] {
     g[8] = if r.chance(1, 5) { 0 } else { 0x0F };
     g[9] = 0;
     g[10] = 0;
+    if r.chance(1, 3) {
+        // envelope mode: 32 steps of 8*EP chip clocks = 14.4 ms at EP = 100; a high tone, so that
+        // even the first few milliseconds of a dying envelope show plenty of edges
+        g[0] = 25;
+        g[1] &= 0xF0;
+        if r.chance(3, 4) {
+            g[7] &= 0xFE;
+        }
+        g[8] = 0x10 | (g[8] & 0x0F);
+        g[11] = 100;
+        g[12] = 0;
+        g[13] = *r.pick(&[0u8, 9, 3, 4, 7, 15, 1, 8, 12, 10, 14, 11, 13]);
+    }
     g
 }
 
@@ -605,9 +657,16 @@ pub struct Obs {
     pub kv: BTreeMap<String, String>,
 }
 
-/// Destructive: leaves the emulator parked in a loop. `shown_page` = what the spec expects on the
-/// display (bytes of the displayed page), if known.
-fn observe_all(e: &mut Emu, m128: bool, shown_page: Option<&[u8]>, ay_expect_regs: &[u8]) -> BTreeMap<String, String> {
+/// Destructive: leaves the emulator parked in a loop. `shown` = what the spec expects the display
+/// to show: (bytes of the displayed page, bytes of the other screen page if the machine has one).
+/// The caller has drained the audio queue immediately after the load, so everything popped here
+/// was generated by the loaded machine.
+fn observe_all(
+    e: &mut Emu,
+    m128: bool,
+    shown: Option<&(Vec<u8>, Option<Vec<u8>>)>,
+    ay_expect_regs: &[u8],
+) -> BTreeMap<String, String> {
     let mut m = observe(e, m128);
     // devices present? (frame clock moved forward into the bottom border, where an unclaimed port reads 0xFF)
     if e.verif_frame_clocks() < 68000 {
@@ -620,7 +679,7 @@ fn observe_all(e: &mut Emu, m128: bool, shown_page: Option<&[u8]>, ay_expect_reg
     let kj = e.verif_read_io(0x001F);
     // with the mouse present every joystick address is decoded to a mouse register first
     m.insert("kemp".into(), if mb == 0xFE { "?".to_string() } else { ((kj == 0x10) as u8).to_string() });
-    // park the CPU and let three frames pass: border, display, audio
+    // park the CPU and let four frames pass: border, display, audio
     e.verif_write_mem(0x8000, 0x18, 0);
     e.verif_write_mem(0x8001, 0xFE, 0);
     {
@@ -631,13 +690,33 @@ fn observe_all(e: &mut Emu, m128: bool, shown_page: Option<&[u8]>, ay_expect_reg
         c.skip_interrupt = false;
         c.verif_set_active_prefix(rustzx_z80::Prefix::None);
     }
-    let mut last = vec![];
-    for _ in 0..3 {
-        while e.next_audio_sample().is_some() {}
+    let mut early: Vec<f32> = vec![];
+    let mut late: Vec<f32> = vec![];
+    for k in 0..4 {
         let _ = e.emulate_frames(std::time::Duration::from_secs(1));
-        last.clear();
+        let dst = if k < 2 { &mut early } else { late.clear(); &mut late };
         while let Some(s) = e.next_audio_sample() {
-            last.push(s.left + s.right);
+            dst.push(s.left + s.right);
+        }
+    }
+    let bb = e.border_buffer();
+    let probe = [bb.px[0], bb.px[bb.w * 5 + 160], bb.px[bb.w * (bb.h - 1) + bb.w - 1]];
+    m.insert(
+        "bdev".into(),
+        if probe[0] == probe[1] && probe[1] == probe[2] { format!("{:02x}", probe[0] & 7) } else { format!("mixed{:?}", probe) },
+    );
+    if let Some((p, other)) = shown {
+        m.insert("disp".into(), if display_matches(e, p) { "match".into() } else { "differs".into() });
+        // the other screen bank: the program flips bit 3 of 7FFD without redrawing
+        let (latch, enabled, _) = e.verif_paging();
+        if let (Some(o), true, true) = (other, m128, enabled) {
+            e.verif_write_io(0x7FFD, latch ^ 0x08);
+            for _ in 0..2 {
+                let _ = e.emulate_frames(std::time::Duration::from_secs(1));
+            }
+            m.insert("disp2".into(), if display_matches(e, o) { "match".into() } else { "differs".into() });
+            e.verif_write_io(0x7FFD, latch);
+            while e.next_audio_sample().is_some() {}
         }
     }
     // AY read-back (after the audio was taken: the marker write below reprograms one chip register):
@@ -662,16 +741,7 @@ fn observe_all(e: &mut Emu, m128: bool, shown_page: Option<&[u8]>, ay_expect_reg
     }
     m.insert("aysel".into(), sel);
     m.insert("ayregs".into(), hex(&regs));
-    let bb = e.border_buffer();
-    let probe = [bb.px[0], bb.px[bb.w * 5 + 160], bb.px[bb.w * (bb.h - 1) + bb.w - 1]];
-    m.insert(
-        "bdev".into(),
-        if probe[0] == probe[1] && probe[1] == probe[2] { format!("{:02x}", probe[0] & 7) } else { format!("mixed{:?}", probe) },
-    );
-    m.insert("audio".into(), audio_class(&last).to_string());
-    if let Some(p) = shown_page {
-        m.insert("disp".into(), if display_matches(e, p) { "match".into() } else { "differs".into() });
-    }
+    m.insert("audio".into(), audio_class(&early, &late, regs[8] & 0x10 != 0).to_string());
     m
 }
 
@@ -689,20 +759,28 @@ const SPEC_KEYS: [&str; 28] = [
 ];
 const MODEL_KEYS: [&str; 3] = ["sb", "pfx", "kemp"];
 
-fn expected_shown(spec: &BTreeMap<String, String>, file_pages: &BTreeMap<u8, Vec<u8>>, recv: &MState) -> Option<Vec<u8>> {
-    // the displayed page according to the spec's latch; its contents from the file if the file has
-    // the page, else from the receiver
+/// What the display must show according to the spec: the page selected by bit 3 of the spec's latch
+/// and, on the 128K, the other screen page; contents from the file where the file has the page,
+/// else from the receiver.
+fn expected_shown(
+    spec: &BTreeMap<String, String>,
+    file_pages: &BTreeMap<u8, Vec<u8>>,
+    recv: &MState,
+) -> Option<(Vec<u8>, Option<Vec<u8>>)> {
     let m128 = spec.get("pages").map_or(false, |p| !p.split(',').nth(1).unwrap_or("-").starts_with('-'));
-    let page: u8 = if m128 {
-        let lat = u8::from_str_radix(spec.get("lat")?, 16).ok()?;
-        if lat & 8 != 0 { 7 } else { 5 }
-    } else {
-        5
+    let content = |page: u8| -> Option<Vec<u8>> {
+        if let Some(p) = file_pages.get(&page) {
+            return Some(p.clone());
+        }
+        bank_index(recv.m128, page).map(|k| recv.banks[k].bytes())
     };
-    if let Some(p) = file_pages.get(&page) {
-        return Some(p.clone());
+    if m128 {
+        let lat = u8::from_str_radix(spec.get("lat")?, 16).ok()?;
+        let (shown, other) = if lat & 8 != 0 { (7, 5) } else { (5, 7) };
+        Some((content(shown)?, content(other)))
+    } else {
+        Some((content(5)?, None))
     }
-    bank_index(recv.m128, page).map(|k| recv.banks[k].bytes())
 }
 
 pub fn check_case(cx: &mut Ctx, case: &Case, mut rep: Option<&mut Report>) -> Vec<Finding> {
@@ -763,6 +841,10 @@ pub fn check_case(cx: &mut Ctx, case: &Case, mut rep: Option<&mut Report>) -> Ve
         FileSpec::Sna(_) => load_sna(&mut rcv, &bytes),
         FileSpec::Scr(_) => load_scr(&mut rcv, &bytes),
     };
+    // Everything in the audio queue from here on was generated by the loaded machine. (Samples
+    // produced *during* the load — an SZX moves the frame clock, and the OUT to 0xFE of its SPCR chunk
+    // makes the mixer catch up with whatever the chip held at that moment — are not judged.)
+    while rcv.next_audio_sample().is_some() {}
     if let Some(r) = rep.as_deref_mut() {
         r.eval();
     }
@@ -808,13 +890,14 @@ pub fn check_case(cx: &mut Ctx, case: &Case, mut rep: Option<&mut Report>) -> Ve
     let shown = spec.as_ref().and_then(|s| expected_shown(s, &file_pages, &case.recv));
     let mut avoid = ay_regs.to_vec();
     avoid.extend_from_slice(&case.recv.ay.as_ref().map_or([0u8; 16], |a| a.regs));
-    let mut got = observe_all(&mut rcv, case.recv.m128, shown.as_deref(), &avoid);
+    let mut got = observe_all(&mut rcv, case.recv.m128, shown.as_ref(), &avoid);
     // derived keys for model and spec: audible class, display
     let derive = |kv: &BTreeMap<String, String>| -> BTreeMap<String, String> {
         let mut kv = kv.clone();
         let present = kv.get("aypres").map_or(false, |v| v == "1");
         let chip = unhex(kv.get("aychip").map(|s| s.as_str()).unwrap_or(""));
-        kv.insert("audio".into(), regs_class(present, &chip).to_string());
+        let env = kv.get("ayenv").map_or(true, |v| v == "1");
+        kv.insert("audio".into(), regs_class(present, &chip, env).to_string());
         kv
     };
     let spec_d = spec.as_ref().map(derive);
@@ -824,9 +907,30 @@ pub fn check_case(cx: &mut Ctx, case: &Case, mut rep: Option<&mut Report>) -> Ve
         FileSpec::Scr(_) => vec!["lat", "lk", "bd", "bdev", "pages", "mouse"],
         _ => SPEC_KEYS.to_vec(),
     };
+    // Loose point (not fixed by the property text, see notes/C14.md): an SZX says the machine is
+    // dwCyclesStart T-states into its frame. The loader sets the frame clock in Z80R and the OUT to 0xFE
+    // of a later SPCR chunk makes the mixer catch up with that time at once — if the AY chunk came
+    // before, the chip (and a dying envelope) has then already run for up to one frame when the load
+    // returns. Where the envelope stands relative to the frame clock is not described by the format:
+    // in exactly that constellation a burst that is already over is accepted.
+    let burst_may_be_over = match &case.file {
+        FileSpec::Szx(s) => {
+            let pos = |k: &Ck| s.order.iter().position(|c| c == k);
+            // (without an AY chunk the receiver's chip simply keeps running through the catch-up)
+            match (pos(&Ck::Z80r), pos(&Ck::Spcr)) {
+                (Some(z), Some(sp)) => z < sp && pos(&Ck::Ay).map_or(true, |a| a < sp) && s.cycles > 2000,
+                _ => false,
+            }
+        }
+        _ => false,
+    };
+    let audio_tolerated = |k: &str, g: &str, w: &str| k == "audio" && burst_may_be_over && g == "silent" && w == "burst";
     let mut seen: Vec<String> = vec![];
     if let Some(sd) = &spec_d {
         for (k, g, w) in diff_obs(&got, sd, &spec_keys) {
+            if audio_tolerated(&k, &g, &w) {
+                continue;
+            }
             // ZXSTZF_HALTED: either reading of where PC points is accepted
             if k == "pc" {
                 if let Some(pcb) = &specb_pc {
@@ -846,9 +950,14 @@ pub fn check_case(cx: &mut Ctx, case: &Case, mut rep: Option<&mut Report>) -> Ve
             }
         }
         // display: the frame buffer must show the page the spec says is displayed
-        if got.get("disp").map_or(false, |d| d != "match") && !seen.contains(&"paging".to_string()) && !seen.contains(&"ram".to_string()) {
-            seen.push("display".into());
-            out.push(Finding { phase: "load", group: "display".into(), kind: Kind::SpecViolated, got: "frame buffer differs from the decoded page".into(), want: "display shows the described page".into() });
+        if !seen.contains(&"paging".to_string()) && !seen.contains(&"ram".to_string()) {
+            if got.get("disp").map_or(false, |d| d != "match") {
+                seen.push("display".into());
+                out.push(Finding { phase: "load", group: "display".into(), kind: Kind::SpecViolated, got: "frame buffer differs from the decoded page".into(), want: "display shows the described page".into() });
+            } else if got.get("disp2").map_or(false, |d| d != "match") {
+                seen.push("display".into());
+                out.push(Finding { phase: "load", group: "display".into(), kind: Kind::SpecViolated, got: "after flipping bit 3 of 7FFD the frame buffer differs from the decoded other screen page".into(), want: "display shows the other screen page as described".into() });
+            }
         }
     }
     if let Some(md) = &model_d {
@@ -858,6 +967,9 @@ pub fn check_case(cx: &mut Ctx, case: &Case, mut rep: Option<&mut Report>) -> Ve
             ks.extend_from_slice(&["af", "bc", "de", "hl", "sp", "pc", "iff", "halt", "skip", "mid"]);
         }
         for (k, g, w) in diff_obs(&got, md, &ks) {
+            if audio_tolerated(&k, &g, &w) {
+                continue;
+            }
             let grp = group_of(&k);
             if !seen.contains(&grp) {
                 seen.push(grp.clone());
@@ -866,6 +978,7 @@ pub fn check_case(cx: &mut Ctx, case: &Case, mut rep: Option<&mut Report>) -> Ve
         }
     }
     got.remove("disp");
+    got.remove("disp2");
     // continued execution: a second receiver loads the same file and is compared, step by step, with an
     // emulator *built* in the described state (complete files only; the frame clock of the built one is
     // moved forward to the loaded one's)
@@ -963,7 +1076,7 @@ pub fn random_szx(r: &mut Rng, m128: bool) -> SzxSpec {
         st.poke(pc.wrapping_add(1), 0x3C);
         st.poke(pc.wrapping_add(2), 0x3C);
     }
-    st.ay = Some(AyState { sel: r.below(16) as u8, regs: ay_preset(r), enabled: m128 || r.chance(1, 2) });
+    st.ay = Some(AyState { sel: r.below(16) as u8, regs: ay_preset(r), enabled: m128 || r.chance(1, 2), played: false });
     st.mouse = r.chance(1, 3);
     let mid = if m128 { 2 } else { 1 };
     let fe = if r.chance(1, 2) { st.border | (r.u8() & 0x18) } else { r.u8() & 0x1F };
@@ -1009,10 +1122,44 @@ pub fn random_szx(r: &mut Rng, m128: bool) -> SzxSpec {
 
 fn random_recv(r: &mut Rng, m128: bool) -> MState {
     let mut s = if r.chance(1, 4) { MState::fresh(m128) } else { crate::c13::random_state(r, m128, false) };
-    s.ay = Some(AyState { sel: r.below(16) as u8, regs: if r.chance(1, 3) { [0; 16] } else { ay_preset(r) }, enabled: m128 || r.chance(1, 2) });
+    s.ay = Some(AyState { sel: r.below(16) as u8, regs: if r.chance(1, 3) { [0; 16] } else { ay_preset(r) }, enabled: m128 || r.chance(1, 2), played: r.bool() });
     s.mouse = r.chance(1, 3);
     s.kemp = r.chance(1, 3);
     s
+}
+
+/// A receiver that is the described machine itself some time later ("the same snapshot is loaded
+/// again", "load back into the emulator that saved"): the file's state with a few things moved on.
+fn correlated_recv(r: &mut Rng, file: &FileSpec) -> Option<MState> {
+    let mut s = match file {
+        FileSpec::Szx(f) => f.st.clone(),
+        FileSpec::Sna(f) => {
+            let mut s = f.clone();
+            s.ay = Some(AyState { sel: r.below(16) as u8, regs: ay_preset(r), enabled: s.m128 || r.bool(), played: true });
+            s
+        }
+        FileSpec::Scr(_) => return None,
+    };
+    if let Some(a) = &mut s.ay {
+        a.played = true;
+    }
+    s.halt = r.chance(1, 3);
+    s.skip = r.chance(1, 3);
+    s.pfx = if r.chance(1, 3) { *r.pick(&[2u8, 3, 4]) } else { 0 };
+    // the program ran on: some registers, a bank or two and the border have changed
+    for _ in 0..r.below(4) {
+        let k = r.below(12) as usize;
+        s.w[k] = r.u16();
+    }
+    for _ in 0..r.below(3) {
+        let k = r.below(s.banks.len() as u64) as usize;
+        s.banks[k] = Bank::new(1 + r.below(0xFFFF_FFFF));
+    }
+    if r.chance(1, 3) {
+        s.border = r.below(8) as u8;
+    }
+    s.kemp = r.chance(1, 3);
+    Some(s)
 }
 
 pub fn run(o: &Opts) -> Report {
@@ -1064,7 +1211,14 @@ machine, halted/EILAST/compression/unknown/AY/mouse flags, receiver halt/prefix/
             _ => FileSpec::Szx(random_szx(&mut r, m128)),
         };
         let recv_m128 = if r.chance(1, 7) && !matches!(file, FileSpec::Scr(_)) { !m128 } else { m128 };
-        let case = Case { file, recv: random_recv(&mut r, recv_m128) };
+        let recv = if recv_m128 == m128 && r.chance(1, 4) {
+            rep.count("receiver_kind", "the described machine itself, later");
+            correlated_recv(&mut r, &file).unwrap_or_else(|| random_recv(&mut r, recv_m128))
+        } else {
+            rep.count("receiver_kind", "unrelated");
+            random_recv(&mut r, recv_m128)
+        };
+        let case = Case { file, recv };
         rep.count("format", case.kind());
         rep.count("machines", format!("file {} into {}", if case.file_m128() { "128k" } else { "48k" }, if case.recv.m128 { "128k" } else { "48k" }));
         if let FileSpec::Szx(s) = &case.file {
@@ -1108,7 +1262,7 @@ fn fx_text(fx: u32) -> String {
 pub fn detect_fixes() -> (u32, Vec<String>) {
     let (mut fx, notes) = crate::c13::detect_fixes();
     let mut st = MState::fresh(true);
-    st.ay = Some(AyState { sel: 0, regs: { let mut g = [0u8; 16]; g[0] = 100; g[7] = 0x3E; g[8] = 0x0F; g }, enabled: true });
+    st.ay = Some(AyState { sel: 0, regs: { let mut g = [0u8; 16]; g[0] = 100; g[7] = 0x3E; g[8] = 0x0F; g }, enabled: true, played: false });
     st.border = 2;
     st.halt = true;
     st.w[11] = 0x9000;
@@ -1117,7 +1271,7 @@ pub fn detect_fixes() -> (u32, Vec<String>) {
         order: vec![Ck::Z80r, Ck::Spcr, Ck::Ay, Ck::Ramp(2, Comp::Raw)] };
     let (bytes, _) = spec.encode();
     let mut fresh = MState::fresh(true);
-    fresh.ay = Some(AyState { sel: 0, regs: [0; 16], enabled: true });
+    fresh.ay = Some(AyState { sel: 0, regs: [0; 16], enabled: true, played: false });
     let mut e = build(&fresh);
     if load_szx(&mut e, &bytes) == Outcome::Ok {
         if e.verif_cpu().regs.get_pc() == 0x9000 {
@@ -1170,6 +1324,8 @@ fn features(case: &Case) -> String {
         if let Some(a) = &st.ay {
             if a.regs != [0; 16] { f.push(format!("{}.ay", tag)); }
             if a.enabled && a.sel != 0 { f.push(format!("{}.aysel", tag)); }
+            if a.played { f.push(format!("{}.ay-played", tag)); }
+            if a.regs[8] & 0x10 != 0 { f.push(format!("{}.ay-envelope", tag)); }
             if !a.enabled && st.m128 { f.push(format!("{}.ay-off", tag)); }
             if a.enabled && !st.m128 { f.push(format!("{}.ay-on", tag)); }
         }
@@ -1252,7 +1408,7 @@ fn shrink(cx: &mut Ctx, case: &Case, phase: &str, group: &str, kind: Kind) -> Ca
         let ay = c.recv.ay.clone();
         let (mouse, kemp) = (c.recv.mouse, c.recv.kemp);
         c.recv = MState::fresh(c.recv.m128);
-        c.recv.ay = ay.map(|a| AyState { sel: 0, regs: [0; 16], enabled: a.enabled });
+        c.recv.ay = ay.map(|a| AyState { sel: 0, regs: [0; 16], enabled: a.enabled, played: a.played });
         c.recv.mouse = mouse;
         c.recv.kemp = kemp;
     }));
@@ -1268,6 +1424,7 @@ fn shrink(cx: &mut Ctx, case: &Case, phase: &str, group: &str, kind: Kind) -> Ca
     steps.push(Box::new(|c| c.recv.kemp = false));
     steps.push(Box::new(|c| if let Some(a) = &mut c.recv.ay { a.regs = [0; 16]; a.sel = 0; }));
     steps.push(Box::new(|c| if let Some(a) = &mut c.recv.ay { a.sel = 0; }));
+    steps.push(Box::new(|c| if let Some(a) = &mut c.recv.ay { a.played = false; }));
     steps.push(Box::new(|c| if let Some(a) = &mut c.recv.ay { a.enabled = c.recv.m128; }));
     // file structure
     steps.push(Box::new(|c| if let FileSpec::Szx(s) = &mut c.file { s.order.retain(|k| !matches!(k, Ck::Unknown(..))); }));
